@@ -17,6 +17,7 @@ import (
 	"fmt"
 	"os"
 	"strings"
+	"sync/atomic"
 	"time"
 
 	"verif/c08/dbccase"
@@ -61,13 +62,15 @@ func replayMain(args []string) int {
 		}
 	}
 	fmt.Printf("input %d bytes: %q\n", len(text), truncateFor(text, 400))
-	stage := "parse"
+	var stage atomic.Value
+	stage.Store("parse")
 	done := make(chan struct{})
 	go func() {
 		select {
 		case <-done:
 		case <-time.After(10 * time.Second):
-			fmt.Printf("%s: HANG (no result after 10 s)\nsignature %s-HANG-replay\n", stage, stage)
+			st := stage.Load().(string)
+			fmt.Printf("%s: HANG (no result after 10 s)\nsignature %s-HANG-replay\n", st, st)
 			os.Exit(exitHang)
 		}
 	}()
@@ -77,7 +80,7 @@ func replayMain(args []string) int {
 	if o.Class == "ok" && dbccase.WideMux(o.File, maxSelectorBits) {
 		fmt.Println("import: excluded (multiplexor wider than 16 bits)")
 	} else {
-		stage = "import"
+		stage.Store("import")
 		ires := runImport(filename, text)
 		show("import", ires)
 	}
